@@ -425,7 +425,14 @@ pub fn run_migration(prop: Prop, p: &Profile, tape: &Tape) -> Runner {
                 }
                 ev
             };
-            reenc_steps.push(Step::ReencodeBid { id: id.clone(), events });
+            // the denomination written into the events' base coins: the bid's own, or (as old
+            // versions did for fills of convertible asks) another one
+            let ebd = match pick(w[27].rotate_left(5 + i as u32), 4) {
+                0 => cfg.convertibles.first().cloned(),
+                1 => Some("legacy.base".to_string()),
+                _ => None,
+            };
+            reenc_steps.push(Step::ReencodeBid { id: id.clone(), events, event_base_denom: ebd });
         }
     }
     let version_step = if prop == Prop::C15 {
@@ -439,6 +446,11 @@ pub fn run_migration(prop: Prop, p: &Profile, tape: &Tape) -> Runner {
         Step::RawVersion { raw: "{not json".into() }
     };
     let msg = migrate_msg(w, &cfg, prop == Prop::C14);
+    // instances created by early versions carry a bound name in their stored configuration
+    if gate(w[31], 250) {
+        r.step(Step::SetBindName { bind_name: "ats.pb".into() });
+        r.judge.label("stored-config-with-bind-name");
+    }
     // the twin: same state, bids left in the current format
     let mut twin = r.world.clone();
     for s in reenc_steps {
